@@ -767,7 +767,13 @@ impl DtlsInner {
                         (msg, raw_msg)
                     };
 
-                    ctx.recv_message_seq += 1;
+                    // A peer (or anyone injecting epoch-0 records) can keep feeding
+                    // in-sequence messages: running out of sequence space is an
+                    // error, not an arithmetic overflow.
+                    ctx.recv_message_seq = ctx
+                        .recv_message_seq
+                        .checked_add(1)
+                        .ok_or_else(|| anyhow::anyhow!("DTLS handshake message_seq space exhausted"))?;
 
                     if processing_msg.msg_type != HandshakeType::Finished
                         && processing_msg.msg_type != HandshakeType::HelloRequest
